@@ -71,6 +71,22 @@ func seedFiles(r *rng, small bool) []seedFile {
 			d, n := jd.build()
 			out = append(out, seedFile{fmt.Sprintf("jpeg-icc-early-sof-late-%d", com), "jpeg", d, n})
 		}
+		// the largest chunk count the one-byte field can declare, every chunk present (two or three bytes each)
+		{
+			p := randProfilePayload(r, 255*2+r.intn(255))
+			szs := make([]int, 255)
+			rem := len(p)
+			for j := 0; j < 255; j++ {
+				szs[j] = rem / (255 - j)
+				rem -= szs[j]
+			}
+			jd := randJpegDesc(r)
+			jd.segsBefore = nil
+			jd.iccSegs = splitICC(p, szs)
+			jd.iccAfterSOF = r.intn(2) == 0
+			d, n := jd.build()
+			out = append(out, seedFile{"jpeg-icc-255-chunks", "jpeg", d, n})
+		}
 	}
 	for _, k := range []string{"VP8", "VP8L", "VP8X"} {
 		wd := randWebpDesc(r, k, nil)
